@@ -795,6 +795,7 @@ static void t_enumerate(a_ctx_t *gp, int mi)
 
 #include "c08_peer12.h"
 #include "c08_frag.h"
+#include "c08_inner.h"
 
 static void run_group(long gi, void *unused)
 {
@@ -804,7 +805,11 @@ static void run_group(long gi, void *unused)
     if (groups[gi].ci >= 1000)
     {
         int x = groups[gi].ci - 1000;
-        if (x >= 500)
+        if (x >= 600)
+        {
+            w_run_group((x - 600) / 2, (x - 600) % 2);
+        }
+        else if (x >= 500)
         {
             f_run_group((x - 500) % 2, (x - 500) / 2 % 2, groups[gi].p);
         }
@@ -1082,6 +1087,20 @@ int main(int argc, char **argv)
             mx_replay_print(&r);
             return 0;
         }
+        if (replay[0] == 'W')
+        {
+            wcase_t wc;
+            mx_result_t r;
+            if (sscanf(replay, "W;s=%d;v=%d;x=%d", &wc.si, &wc.victim, &wc.shape) != 3 || wc.si >= NWSUITE || wc.shape >= NWSHAPE)
+            {
+                return 2;
+            }
+            memset(&r, 0, sizeof(r));
+            snprintf(r.desc, sizeof(r.desc), "%s", replay);
+            w_run_case(&wc, &r);
+            mx_replay_print(&r);
+            return 0;
+        }
         if (replay[0] == 'V')
         {
             static v_ctx_t vg;
@@ -1186,6 +1205,15 @@ int main(int argc, char **argv)
                     groups[ngroups].ci = 1000 + 500 + t2 * 2 + v2; groups[ngroups].p = a2; ngroups++;
                 }
     }
+    /* part W: TLS 1.3 records with an inner plaintext no honest peer sends, one group per (suite, victim) */
+    {
+        int s3, v3;
+        for (s3 = 0; s3 < NWSUITE; s3++)
+            for (v3 = 0; v3 < 2; v3++)
+            {
+                groups[ngroups].ci = 1000 + 600 + s3 * 2 + v3; groups[ngroups].p = 0; ngroups++;
+            }
+    }
     /* part V: malicious (D)TLS <= 1.2 peer after the handshake, one group per (configuration, victim) */
     for (i = 0; i < NVCFG; i++)
     {
@@ -1217,7 +1245,7 @@ int main(int argc, char **argv)
         int k = 0;
         for (i = 0; i < ngroups; i++)
         {
-            if (groups[i].ci >= 1500 && groups[i].ci < 1600)
+            if (groups[i].ci >= 1500 && groups[i].ci < 1700)
             {
                 groups[k++] = groups[i];
             }
